@@ -154,6 +154,7 @@ func run(c *mon.Ctx) {
 	c.Floor("predicate.required_true", 5000)
 	c.Floor("readpmt.split_on_section_boundary", 20)
 	c.Floor("readpmt.first_packet_holds_only_pointer_filler", 20)
+	c.Floor("readpmt.long_run_of_other_pids_inside_the_unit", 20)
 	c.Floor("readpmt.earlier_unit_on_pmt_pid/other-section-unit", 500)
 	c.Floor("readpmt.earlier_unit_on_pmt_pid/truncated-larger-pmt", 500)
 	c.Floor("decode_again_after_removal", 2000)
@@ -331,9 +332,29 @@ func run(c *mon.Ctx) {
 			}
 			c.Count("readpmt.earlier_unit_on_pmt_pid/" + earlier)
 		}
-		for _, pk := range pkts {
-			for q := r.Intn(inter + 1); q > 0; q-- {
+		// now and then a long run of other programmes' packets lies between two packets of the unit (a PMT is
+		// a trickle inside a multiplex of tens of megabits): 128, 129, ... 256, ... 65536 packets and more
+		gapAt, gapLen := -1, 0
+		if len(pkts) > 1 && r.Chance(8) {
+			gapAt = 1 + r.Intn(len(pkts)-1)
+			gapLen = r.PickInt([]int{127, 128, 129, 130, 200, 255, 256, 257, 1000, 4096, 5000})
+			if r.Chance(10) {
+				gapLen = r.PickInt([]int{65535, 65536, 65537, 70000})
+			}
+			c.Count("readpmt.long_run_of_other_pids_inside_the_unit")
+		}
+		for k, pk := range pkts {
+			nq := r.Intn(inter + 1)
+			if k == gapAt {
+				nq = gapLen
+			}
+			for q := nq; q > 0; q-- {
 				opid := (pid + 1 + r.Intn(60)) & 0x1fff
+				if nq > 300 {
+					o := ref.PaddedPacket(opid, q&15, q%97 == 0, nil)
+					st.Write(o[:])
+					continue
+				}
 				o := ref.PaddedPacket(opid, r.Intn(16), r.Bool(), r.Bytes(r.Intn(185)))
 				st.Write(o[:])
 			}
